@@ -295,6 +295,7 @@ func validateFieldContent(msg *Message, checkFieldsHaveValues, checkFieldsOutOfO
 		case inHeader && t.IsHeader():
 		case inHeader && !t.IsHeader():
 			inHeader = false
+			inTrailer = t.IsTrailer()
 		case !inHeader && t.IsHeader() && checkFieldsOutOfOrder:
 			return tagSpecifiedOutOfRequiredOrder(t)
 		case t.IsTrailer():
